@@ -1,0 +1,322 @@
+//go:build verif
+
+package main
+
+// Driver for the correspondence check of property C04 (/verif): runs the real main() with
+// the static registry backend, the picker strategy given in VERIF_C04_IN and ONE listener
+// `proto=https+tcp+sni` (file cert source, a self-signed certificate written by the driver),
+// so that the wiring of main.go between a listener and the pickers takes part: the tcpproxy
+// matcher (lookupHostMatcher), the SNI proxy's lookup (lookupHostFn) and the http proxy's
+// lookup (newHTTPProxy).  Routes: a tcp route db.example.com/ over plain TCP upstreams of the
+// driver that report their index and close, and an http route web.example.com/ over HTTP
+// upstreams that answer with their index; the weights are the job's.  The driver then opens
+// the connections of the job's schedule one after the other - 'd': a TLS connection with SNI
+// db.example.com, 'w': an HTTPS request for web.example.com on a connection of its own, 't': the
+// same with a Trace header (main.go hands it to Table.Lookup, which then logs its way through
+// the table), 'x': an HTTPS request for a server name that has no route - and reports which upstream each one
+// reached, next to the weights, the ring and the round-robin cursor of the two routes as the
+// route package shows them.  One job per process: main() parses flags once and keeps its
+// state in package variables.  Skipped unless VERIF_C04_IN is set.
+
+import (
+	"context"
+	"crypto/ecdsa"
+	"crypto/elliptic"
+	"crypto/rand"
+	"crypto/tls"
+	"crypto/x509"
+	"crypto/x509/pkix"
+	"encoding/json"
+	"encoding/pem"
+	"fmt"
+	"io"
+	"math"
+	"math/big"
+	"net"
+	"net/http"
+	"os"
+	"path/filepath"
+	"strconv"
+	"strings"
+	"testing"
+	"time"
+
+	"github.com/fabiolb/fabio/route"
+)
+
+type verifC04In struct {
+	Strategy string   // -proxy.strategy: rr | rnd
+	TCP      []string // weight text of every target of the tcp route ("" = no weight clause)
+	HTTP     []string // likewise for the http route
+	Sched    string   // one letter per connection: d | w | t | x
+}
+
+type verifC04Route struct {
+	Fixed   []uint64 // FixedWeight bits of the targets, in r.Targets order
+	Weights []uint64 // Weight bits
+	Ring    []int    // r.wTargets as indices into r.Targets (route.VerifRing)
+	Order   []int    // upstream index of every target in r.Targets order (identity unless the table reorders)
+	Before  uint64   // round-robin cursor before the first connection
+	After   uint64   // ... and after the last one
+}
+
+type verifC04Out struct {
+	DB, Web verifC04Route
+	Ups     []int // per connection: the upstream it reached; -1 = none (404 / connection closed), -2 = failure of the exchange
+	Errs    []string
+}
+
+const (
+	verifC04DB   = "db.example.com"
+	verifC04Web  = "web.example.com"
+	verifC04None = "none.example.com"
+)
+
+func verifC04FreeAddr() string {
+	l, err := net.Listen("tcp", "127.0.0.1:0")
+	if err != nil {
+		panic(err)
+	}
+	defer l.Close()
+	return l.Addr().String()
+}
+
+func verifC04WriteCert(dir string) (certFile, keyFile string, err error) {
+	key, err := ecdsa.GenerateKey(elliptic.P256(), rand.Reader)
+	if err != nil {
+		return "", "", err
+	}
+	tmpl := &x509.Certificate{SerialNumber: big.NewInt(4), Subject: pkix.Name{CommonName: "verif-c04"},
+		NotBefore: time.Now().Add(-time.Hour), NotAfter: time.Now().Add(24 * time.Hour),
+		KeyUsage: x509.KeyUsageDigitalSignature, ExtKeyUsage: []x509.ExtKeyUsage{x509.ExtKeyUsageServerAuth},
+		DNSNames: []string{verifC04Web, verifC04DB, verifC04None, "warm.example.com"}}
+	der, err := x509.CreateCertificate(rand.Reader, tmpl, tmpl, &key.PublicKey, key)
+	if err != nil {
+		return "", "", err
+	}
+	kb, err := x509.MarshalECPrivateKey(key)
+	if err != nil {
+		return "", "", err
+	}
+	certFile, keyFile = filepath.Join(dir, "cert.pem"), filepath.Join(dir, "key.pem")
+	if err = os.WriteFile(certFile, pem.EncodeToMemory(&pem.Block{Type: "CERTIFICATE", Bytes: der}), 0o600); err != nil {
+		return "", "", err
+	}
+	err = os.WriteFile(keyFile, pem.EncodeToMemory(&pem.Block{Type: "EC PRIVATE KEY", Bytes: kb}), 0o600)
+	return certFile, keyFile, err
+}
+
+func verifC04ReadRoute(host string, ports map[string]int) (verifC04Route, *route.Route, error) {
+	var vr verifC04Route
+	rs := route.GetTable()[host]
+	if len(rs) != 1 {
+		return vr, nil, fmt.Errorf("%d routes for %s", len(rs), host)
+	}
+	r := rs[0]
+	for _, tg := range r.Targets {
+		vr.Fixed = append(vr.Fixed, math.Float64bits(tg.FixedWeight))
+		vr.Weights = append(vr.Weights, math.Float64bits(tg.Weight))
+		i, ok := ports[tg.URL.Host]
+		if !ok {
+			return vr, nil, fmt.Errorf("target %s of %s is no upstream of the driver", tg.URL, host)
+		}
+		vr.Order = append(vr.Order, i)
+	}
+	vr.Ring = r.VerifRing()
+	vr.Before = r.VerifCursor()
+	return vr, r, nil
+}
+
+func TestVerifC04(t *testing.T) {
+	inFile, outFile := os.Getenv("VERIF_C04_IN"), os.Getenv("VERIF_C04_OUT")
+	if inFile == "" || outFile == "" {
+		t.Skip("VERIF_C04_IN / VERIF_C04_OUT not set")
+	}
+	var in verifC04In
+	b, err := os.ReadFile(inFile)
+	if err != nil {
+		t.Fatal(err)
+	}
+	if err := json.Unmarshal(b, &in); err != nil {
+		t.Fatal(err)
+	}
+	dir, err := os.MkdirTemp("", "verifc04")
+	if err != nil {
+		t.Fatal(err)
+	}
+	defer os.RemoveAll(dir)
+	certFile, keyFile, err := verifC04WriteCert(dir)
+	if err != nil {
+		t.Fatal(err)
+	}
+
+	// the upstreams
+	weightClause := func(w string) string {
+		if w == "" {
+			return ""
+		}
+		return " weight " + w
+	}
+	var routes strings.Builder
+	tcpHits := make(chan int, len(in.Sched)+16)
+	tcpPorts, httpPorts := map[string]int{}, map[string]int{}
+	for i, w := range in.TCP {
+		ln, err := net.Listen("tcp", "127.0.0.1:0")
+		if err != nil {
+			t.Fatal(err)
+		}
+		defer ln.Close()
+		i := i
+		go func() {
+			for {
+				c, err := ln.Accept()
+				if err != nil {
+					return
+				}
+				// the proxy replays the ClientHello: a connection without bytes is not one of ours
+				c.SetReadDeadline(time.Now().Add(20 * time.Second))
+				buf := make([]byte, 16)
+				if n, _ := c.Read(buf); n > 0 {
+					tcpHits <- i
+				}
+				c.Close()
+			}
+		}()
+		tcpPorts[ln.Addr().String()] = i
+		fmt.Fprintf(&routes, "route add db %s/ tcp://%s%s\n", verifC04DB, ln.Addr(), weightClause(w))
+	}
+	for i, w := range in.HTTP {
+		ln, err := net.Listen("tcp", "127.0.0.1:0")
+		if err != nil {
+			t.Fatal(err)
+		}
+		i := i
+		srv := &http.Server{Handler: http.HandlerFunc(func(w http.ResponseWriter, r *http.Request) {
+			io.WriteString(w, strconv.Itoa(i))
+		})}
+		go srv.Serve(ln)
+		defer srv.Close()
+		httpPorts[ln.Addr().String()] = i
+		fmt.Fprintf(&routes, "route add web %s/ http://%s%s\n", verifC04Web, ln.Addr(), weightClause(w))
+	}
+
+	proxyAddr, uiAddr := verifC04FreeAddr(), verifC04FreeAddr()
+	os.Args = []string{"fabio",
+		"-insecure",
+		"-proxy.addr", proxyAddr + ";proto=https+tcp+sni;cs=c04",
+		"-proxy.cs", "cs=c04;type=file;cert=" + certFile + ";key=" + keyFile,
+		"-proxy.strategy", in.Strategy,
+		"-ui.addr", uiAddr,
+		"-registry.backend", "static",
+		"-registry.static.routes", routes.String(),
+		"-log.level", "ERROR",
+	}
+	go main()
+
+	// wait for the listener (a connection without a ClientHello touches no route) ...
+	deadline := time.Now().Add(40 * time.Second)
+	for {
+		c, err := net.Dial("tcp", proxyAddr)
+		if err == nil {
+			c.Close()
+			break
+		}
+		if time.Now().After(deadline) {
+			t.Fatal("proxy did not come up: ", err)
+		}
+		time.Sleep(10 * time.Millisecond)
+	}
+	// ... and for the certificate store (a handshake for a name without route touches no route either)
+	for {
+		c, err := tls.DialWithDialer(&net.Dialer{Timeout: 10 * time.Second}, "tcp", proxyAddr,
+			&tls.Config{ServerName: "warm.example.com", InsecureSkipVerify: true})
+		if err == nil {
+			c.Close()
+			break
+		}
+		if time.Now().After(deadline) {
+			t.Fatal("no TLS handshake with the proxy: ", err)
+		}
+		time.Sleep(10 * time.Millisecond)
+	}
+
+	var out verifC04Out
+	var dbRoute, webRoute *route.Route
+	if out.DB, dbRoute, err = verifC04ReadRoute(verifC04DB, tcpPorts); err != nil {
+		t.Fatal(err)
+	}
+	if out.Web, webRoute, err = verifC04ReadRoute(verifC04Web, httpPorts); err != nil {
+		t.Fatal(err)
+	}
+
+	httpsGet := func(name, trace string) (int, string) {
+		client := &http.Client{Timeout: 30 * time.Second, Transport: &http.Transport{
+			DisableKeepAlives: true,
+			TLSClientConfig:   &tls.Config{ServerName: name, InsecureSkipVerify: true},
+			DialContext: func(ctx context.Context, network, addr string) (net.Conn, error) {
+				return (&net.Dialer{}).DialContext(ctx, "tcp", proxyAddr)
+			},
+		}}
+		req, err := http.NewRequest("GET", "https://"+name+"/", nil)
+		if err != nil {
+			return -2, err.Error()
+		}
+		if trace != "" {
+			req.Header.Set("Trace", trace)
+		}
+		resp, err := client.Do(req)
+		if err != nil {
+			return -2, err.Error()
+		}
+		defer resp.Body.Close()
+		body, _ := io.ReadAll(resp.Body)
+		if resp.StatusCode == 404 {
+			return -1, ""
+		}
+		i, err := strconv.Atoi(strings.TrimSpace(string(body)))
+		if resp.StatusCode != 200 || err != nil {
+			return -2, fmt.Sprintf("status %d body %q", resp.StatusCode, body)
+		}
+		return i, ""
+	}
+	for k, kind := range in.Sched {
+		up, msg := -2, ""
+		switch kind {
+		case 'd':
+			c, err := net.DialTimeout("tcp", proxyAddr, 20*time.Second)
+			if err != nil {
+				msg = err.Error()
+				break
+			}
+			c.SetDeadline(time.Now().Add(30 * time.Second))
+			// the upstream closes after the ClientHello: the handshake ends with an error
+			herr := tls.Client(c, &tls.Config{ServerName: verifC04DB, InsecureSkipVerify: true}).Handshake()
+			c.Close()
+			select {
+			case up = <-tcpHits:
+			case <-time.After(10 * time.Second):
+				up, msg = -1, fmt.Sprint("no upstream saw the connection; handshake: ", herr)
+			}
+		case 'w':
+			up, msg = httpsGet(verifC04Web, "")
+		case 't':
+			up, msg = httpsGet(verifC04Web, fmt.Sprintf("c04-%d", k))
+		case 'x':
+			up, msg = httpsGet(verifC04None, "")
+		default:
+			t.Fatalf("schedule letter %q", kind)
+		}
+		out.Ups = append(out.Ups, up)
+		if msg != "" && len(out.Errs) < 5 {
+			out.Errs = append(out.Errs, fmt.Sprintf("connection %d (%c): %s", k, kind, msg))
+		}
+	}
+	out.DB.After, out.Web.After = dbRoute.VerifCursor(), webRoute.VerifCursor()
+	if rs := route.GetTable()[verifC04DB]; len(rs) != 1 || rs[0] != dbRoute {
+		out.Errs = append(out.Errs, "the routing table was replaced during the run")
+	}
+	b, _ = json.Marshal(out)
+	if err := os.WriteFile(outFile, b, 0o644); err != nil {
+		t.Fatal(err)
+	}
+}
